@@ -610,7 +610,7 @@ impl Sim {
 
     // ------------------------------------------------------------------ hello (C19)
 
-    pub fn step_hello(&mut self, a: usize, b: usize) {
+    pub fn step_hello(&mut self, a: usize, b: usize, fault: Option<&NetFault>) {
         let Some(gid) = self.gid else { return };
         let n = self.reps.len();
         if a >= n || b >= n || a == b || self.crashed[a] || self.crashed[b] || !self.has_graph(b) || self.dead {
@@ -627,6 +627,71 @@ impl Sim {
                 return;
             }
         };
+        // The notification as a message: encoded in the wire format, through the network, decoded by
+        // the library. An untouched message must announce exactly the head that was computed; a
+        // damaged one is only required not to panic any decoder or the decision (C18) - what it
+        // claims about the peer is then the transport's lie, not the library's.
+        let mut h = h;
+        if let Some(fault) = fault {
+            let mut bytes = wire_mirror::encode_sync_type(&wire_mirror::SyncType::Hello(wire_mirror::HelloType::Hello { graph_id: gid, head: h }), &[]);
+            let mut pristine = true;
+            match fault {
+                NetFault::None | NetFault::Dup | NetFault::Misdeliver { .. } => {}
+                NetFault::Drop => {
+                    self.stats.bump("fault.drop");
+                    return;
+                }
+                NetFault::Corrupt { kind, a: x, b: y } => {
+                    self.stats.bump(&format!("fault.corrupt.{kind}"));
+                    crate::netfault::corrupt(&mut bytes, *kind, *x, *y, &self.g);
+                    pristine = false;
+                }
+            }
+            let dec = guarded(|| match SyncIncoming::decode(&bytes) {
+                Ok(SyncIncoming::Hello(aranya_runtime::SyncHello::Hello(nf))) => Ok((nf.graph_id(), nf.head())),
+                Ok(SyncIncoming::Hello(aranya_runtime::SyncHello::Subscribe(x))) => {
+                    let _ = (x.graph_id(), x.graph_change_delay(), x.duration(), x.schedule_delay());
+                    Err("hello-subscribe".to_string())
+                }
+                Ok(SyncIncoming::Hello(aranya_runtime::SyncHello::Unsubscribe(x))) => {
+                    let _ = x.graph_id();
+                    Err("hello-unsubscribe".to_string())
+                }
+                Ok(_) => Err("other".to_string()),
+                Err(e) => Err(format!("decode-err:{e}").chars().take(24).collect()),
+            });
+            match dec {
+                Guarded::Panicked(m) => {
+                    self.on_panic(Some("C18"), "SyncIncoming::decode (hello)", format!("{m}; bytes={}", vcommon::hex(&bytes)));
+                    return;
+                }
+                Guarded::Done(Err(what)) => {
+                    self.stats.bump(&format!("recv.hello.{}", what.split(':').next().unwrap_or("")));
+                    if pristine {
+                        self.anomaly(format!("an untouched hello notification was not decoded as one: {what}"));
+                    }
+                    return;
+                }
+                Guarded::Done(Ok((g2, h2))) => {
+                    self.stats.bump("recv.hello.ok");
+                    if pristine {
+                        if g2 != gid || h2 != h {
+                            self.anomaly("an untouched hello notification decoded to a different graph or head".to_string());
+                            return;
+                        }
+                    } else {
+                        // Damaged: drive the decision for panics only.
+                        let r = with_rep!(&mut self.reps[a], rep => rep.should_sync(g2, h2));
+                        if let Guarded::Panicked(m) = r {
+                            self.on_panic(Some("C18"), "should_sync_on_hello (damaged hello)", m);
+                        }
+                        self.stats.bump("hello.damaged_decided");
+                        return;
+                    }
+                    h = h2;
+                }
+            }
+        }
         let d = match with_rep!(&mut self.reps[a], rep => rep.should_sync(gid, h)) {
             Guarded::Done(Ok(d)) => d,
             Guarded::Done(Err(e)) => {
